@@ -468,9 +468,15 @@ class Facts:
             if g2 in self.eq or (-g2) in self.eq:
                 continue
             # cheap pre-filter: only small forms
-            if len(g2.t) > 3:
+            if len(g2.t) > 6:
                 continue
             if _fm_infeasible(self._system(extra=[g2 - 1])):
+                from math import gcd
+                gg = 0
+                for _, k_ in g2.t:
+                    gg = gcd(gg, abs(k_))
+                if gg > 1 and g2.c % gg == 0:
+                    g2 = Lin(g2.c // gg, [(t_, k_ // gg) for t_, k_ in g2.t])
                 self.eq.append(g2)
                 self._submap_n = None
                 changed = True
